@@ -57,7 +57,7 @@ def minres(
     max_iter = min(max_iter, rhs.size(-2) + 1)
 
     # Epsilon (to prevent nans)
-    eps = torch.tensor(eps, dtype=rhs.dtype, device=rhs.device)
+    eps = torch.tensor(max(eps, torch.finfo(rhs.dtype).tiny ** 0.5), dtype=rhs.dtype, device=rhs.device)
 
     # Create space for matmul product, solution
     prod = mm_(rhs)
